@@ -29,6 +29,19 @@ def make_module(pid, specs, name='mod'):
     for f in os.listdir(src):
         if f.endswith('.go'):
             shutil.copy(os.path.join(src, f), os.path.join(mod, 'vrt', f))
+    ext = {}
+    for sp in specs:
+        ext.update(getattr(sp, 'ext_modules', {}) or {})
+    if ext:
+        gm = open(os.path.join(mod, 'go.mod')).read()
+        for mp, files in sorted(ext.items()):
+            d = os.path.join(mod, 'zz_ext', mp)
+            os.makedirs(d, exist_ok=True)
+            open(os.path.join(d, 'go.mod'), 'w').write('module %s\n\ngo 1.19\n' % mp)
+            for fn, txt in files.items():
+                open(os.path.join(d, fn), 'w').write(txt)
+            gm += '\nrequire %s v0.0.0\n\nreplace %s => ./zz_ext/%s\n' % (mp, mp, mp)
+        open(os.path.join(mod, 'go.mod'), 'w').write(gm)
     for i, sp in enumerate(specs):
         pkg = 'p%04d' % i
         sp.pkg = pkg
@@ -79,7 +92,35 @@ def determinism_checks(pid, wire, mod, res, label):
             sh([wire, 'gen'] + ['../' + d + '/...' for d in pk_dirs[i:i + 40]], first)
     moved = snapshot_gen(other)
     shutil.rmtree(os.path.join(workdir(pid), 'elsewhere'), ignore_errors=True)
-    res['extra']['determinism'] = dict(files=len(base), repeat_equal=0, moved_equal=0)
+    # GOPATH mode with a vendor directory (github.com/google/wire and the external modules are vendored)
+    gp = os.path.join(workdir(pid), 'gopath')
+    shutil.rmtree(gp, ignore_errors=True)
+    gsrc = os.path.join(gp, 'src', 'example.com', 'corpus')
+    shutil.copytree(mod, gsrc, ignore=shutil.ignore_patterns('wire_gen.go', 'zz_replay_*', 'go.mod', 'go.sum', 'zz_ext', '_p*'))
+    vend = os.path.join(gsrc, 'vendor')
+    os.makedirs(os.path.join(vend, 'github.com', 'google', 'wire'))
+    shutil.copy(os.path.join(REPO, 'wire.go'), os.path.join(vend, 'github.com', 'google', 'wire', 'wire.go'))
+    if os.path.isdir(os.path.join(mod, 'zz_ext')):
+        for root, dirs, files in os.walk(os.path.join(mod, 'zz_ext')):
+            for f in files:
+                if f.endswith('.go'):
+                    rel = os.path.relpath(os.path.join(root, f), os.path.join(mod, 'zz_ext'))
+                    os.makedirs(os.path.dirname(os.path.join(vend, rel)), exist_ok=True)
+                    shutil.copy(os.path.join(root, f), os.path.join(vend, rel))
+    genv = dict(GOENV, GO111MODULE='off', GOPATH=gp, GOFLAGS='')
+    sh([wire, 'gen', './...'], gsrc, env=genv)
+    vendored = snapshot_gen(gsrc)
+    shutil.rmtree(gp, ignore_errors=True)
+    res['extra']['determinism'] = dict(files=len(base), repeat_equal=0, moved_equal=0, gopath_vendor_equal=0)
+    for rel, data in base.items():
+        if rel.startswith('_'):
+            continue
+        if vendored.get(rel) == data:
+            res['extra']['determinism']['gopath_vendor_equal'] += 1
+        else:
+            res['confirmed'].append(dict(cls='C16:output depends on the dependency layout', props=['C16'],
+                                         msg='wire gen in GOPATH mode with a vendor directory produced different bytes for %s than in module mode' % rel,
+                                         artifact_dir=os.path.join(mod, os.path.dirname(rel)), model=None, harness=label))
     for rel, data in base.items():
         if again.get(rel) == data:
             res['extra']['determinism']['repeat_equal'] += 1
@@ -158,7 +199,7 @@ def run_sideb(pid, specs, props_filter=None, label='sideB', determinism=False):
     exe = ensure_engine()
     outp = os.path.join(workdir(pid), 'sideb_batch.json')
     pats = './...'
-    cmd = [exe, '-repo', mod, '-pkg', pats, '-batch', '-entry', 'VDrive', '-interp', 'example.com/corpus/vrt,errors,github.com/google/wire', '-out', outp,
+    cmd = [exe, '-repo', mod, '-pkg', pats, '-batch', '-entry', 'VDrive', '-interp', 'example.com/corpus/vrt,errors,github.com/google/wire,example.org/...', '-out', outp,
            '-samples', '1', '-max-steps', '2000000']
     r = subprocess.run(cmd, env=GOENV, capture_output=True, text=True)
     log(r.stderr.strip()[-400:])
